@@ -8,3 +8,9 @@ def run(ck):
     from .common import reevaluate
     reevaluate(ck, 'C11.w', 'c10', lambda r, k: r == 'C10.b' and ('width' in k or 'layout' in k),
                'store, validate and fetch work on the size and addresses the set-up functions recorded')
+    # validation (and the partial store) recompute the checksum from the medium: that says something about the image only
+    # when the recomputation walks the WHOLE data region, whatever the placement - a walk that stops short (or never
+    # starts) lets a mixed image validate
+    ck.rule('C11.x', 'the checksum recomputation walks the whole data region chunk by chunk, address and count moving together, and reports success only with nothing left (C10.b/C10.c walker instances of persistent_calculate_checksum re-evaluated)')
+    reevaluate(ck, 'C11.x', 'c10', lambda r, k: r in ('C10.b', 'C10.c') and k.startswith('persistent_calculate_checksum:'),
+               'the recomputed checksum covers every octet of the data region')
